@@ -369,7 +369,11 @@ def check_target(env, target, bname, budget, given=None):
                 cases.append({"assignment": assignment, "ghost": ghost})
         else:
             pnames = list(contract.params)
-            plists = [candidates(env, contract.params[p], p, contract) for p in pnames]
+            try:
+                plists = [candidates(env, contract.params[p], p, contract) for p in pnames]
+            except KeyError as e:
+                out["skipped"] = "no native harness for this function (%s)" % (e,)
+                return out
             combos = list(itertools.product(*plists))
             if len(combos) > budget:
                 env.rng.shuffle(combos)
